@@ -17,8 +17,11 @@ CLASS_OF = {"country": "InvalidCountryCode", "length": "InvalidLength", "chars":
 def national():
     global _NAT
     if _NAT is None:
-        from schwifty.checksum import algorithms
-        impl = {k.split(":", 1)[1] for k in algorithms if k.startswith("DE:")}
+        try:
+            from schwifty.checksum import algorithms
+            impl = {k.split(":", 1)[1] for k in algorithms if k.startswith("DE:")}
+        except Exception:  # noqa: BLE001 - refactored away: assume the methods this harness has references for
+            impl = None
         _NAT = National(oracle(), implemented=impl)
     return _NAT
 
